@@ -27,6 +27,7 @@ func init() {
 			"C11.R2s the receiver of the chan func() calls the received closure synchronously and calls block processing synchronously in the same function",
 			"C11.R4 mortal peer: the hand-off send must be a select arm with an alternative; the active flag is set true only on the success branch of the start call; handlers test the flag before calls that block on per-block goroutines",
 			"C11.R6 lock re-entrancy: no call made while a mutex field is held reaches a Lock of the same mutex of the same object (self-deadlock inside the core loop)",
+			"C11.R7 a pulse-length request never leaves projectors installed for another record length (the next record would panic the block-processing goroutine): same path rule as C13.R2",
 			"C11.R5 no deliberate crash: panic/log.Fatal/os.Exit sites in module code reachable (VTA call graph) from request closures and from handlers that queue requests",
 		},
 		Run: runC11,
@@ -60,6 +61,7 @@ func runC11(p *Prog, r *Report) {
 	c.ruleR3()
 	c.ruleR4()
 	checkLockReentrancy(p, r, "C11.R6")
+	c13R2As(p, r, "C11.R7")
 }
 
 // ---- R1 ------------------------------------------------------------------------
